@@ -21,7 +21,7 @@ import time
 
 ROOT = os.path.dirname(os.path.dirname(os.path.abspath(__file__)))
 COQ = os.path.join(ROOT, "coq")
-REPO = "/repo"
+REPO = os.environ.get("VERIF_REPO", "/repo")
 GOENV = dict(os.environ, GOFLAGS="-mod=mod", GOPROXY="off", GOSUMDB="off", GOTOOLCHAIN="local",
              CGO_ENABLED=os.environ.get("CGO_ENABLED", "1"))
 
@@ -84,6 +84,8 @@ def build_go(dirname, tags=None):
     d = os.path.join(ROOT, dirname)
     if os.path.exists(os.path.join(REPO, "go.sum")):
         shutil.copyfile(os.path.join(REPO, "go.sum"), os.path.join(d, "go.sum"))
+    if dirname == "harness":
+        run(["go", "mod", "edit", "-replace", "github.com/go-ap/activitypub=" + REPO], cwd=d)
     cmd = ["go", "build"]
     if tags:
         cmd += ["-tags", tags]
